@@ -116,6 +116,8 @@ def judge(st, case, rc, out, err, expect):
             if rc != 1 or not has_diag:
                 problems.append('expected status 1 with a diagnostic, got %r / stderr %r' % (rc, err[-160:]))
     st.add('outcome', '%s/%s' % (rc, 'diag' if b'[error]' in err else 'quiet'))
+    if len(st.samples) < 3:
+        st.sample(dict(case, status=rc, expected=expect))
     if problems:
         st.violate(Violation('C13', 'cli', 'cli:' + problems[0].split(' ')[0], case,
                              'status 0, or the requested status, or 1 with a diagnostic (%s); never a panic/abort' % expect,
